@@ -35,6 +35,7 @@ class C03Monitor(simfarm.Monitor):
         self.nontrivial = False
         self.chron = 0
         self.inflight_at_request = 0
+        self.job_in_que = True
 
     def on_organize(self, sim, names, runid, targets, event):
         fly = sim.inflight_keys()
@@ -76,6 +77,7 @@ class C03Monitor(simfarm.Monitor):
 
     def before_res(self, sim, msg):
         self.chron0 = len(sim.chron_appended)
+        self.job_in_que = any(j.tag == msg.jobid for j in sim.sch.que)
 
     def after_res(self, sim, msg):
         self.replies += 1
@@ -105,7 +107,10 @@ class C03Monitor(simfarm.Monitor):
             'result-dropped',
             f'reply for {rel.tag}[{rel.target}] (release #{rel.seq}, outcome {rel.outcome}) was not applied: '
             'no completion recorded, no propagation',
-            'C03/purge-forgets-executing-descendant' if rel.forgotten else None,
+            # the recorded finding is specifically: the forgotten unit's node had LEFT the
+            # queue, so the reply could not be matched ('Could not find job'); a reply that
+            # is dropped although its node is still queued is something else
+            'C03/purge-forgets-executing-descendant' if rel.forgotten and not self.job_in_que else None,
         )
 
     def after_event(self, sim, ev):
